@@ -100,7 +100,8 @@ def verify_unit(args):
         for oi, ob in enumerate(obs):
             if oi % nshards != shard:
                 continue
-            st, solver, ms, model, reason, size = tr.solve(ob, lemmas, timeout_ms=opts['timeout'], fuel=opts['fuel'])
+            st, solver, ms, model, reason, size = tr.solve(ob, lemmas, timeout_ms=opts['timeout'], fuel=opts['fuel'],
+                                                          cross=bool(opts.get('cross')) and ob.kind != 'cover')
             if ob.kind == 'cover':
                 # a cover is GOOD when it is satisfiable: assumptions that cannot hold together prove anything
                 st = {'refuted': 'covered', 'discharged': 'vacuous'}.get(st, 'cover-undecided')
@@ -129,7 +130,7 @@ def verify_unit(args):
     return meta, [r.to_json() for r in results]
 
 
-def verify_family(famname, fuel=2, timeout=10000, jobs=None, only=None, refute_fuel=3, serves=None, deep=False):
+def verify_family(famname, fuel=2, timeout=10000, jobs=None, only=None, refute_fuel=3, serves=None, deep=False, cross=False):
     cset = load_family(famname)
     units = []
     for l in cset.lemmas:
@@ -140,7 +141,7 @@ def verify_family(famname, fuel=2, timeout=10000, jobs=None, only=None, refute_f
             units.append((famname, 'function', key))
     if only:
         units = [u for u in units if only in u[2]]
-    opts = dict(fuel=fuel, timeout=timeout, refute_fuel=refute_fuel, deep=deep)
+    opts = dict(fuel=fuel, timeout=timeout, refute_fuel=refute_fuel, deep=deep, cross=cross)
     work = []
     for u in units:
         n = 1
@@ -191,9 +192,10 @@ def main():
     ap.add_argument('-j', type=int, default=None)
     ap.add_argument('-v', action='store_true')
     ap.add_argument('--json')
+    ap.add_argument('--cross', action='store_true', help='re-check every discharged obligation with cvc5')
     a = ap.parse_args()
     t0 = time.time()
-    rep = verify_family(a.family, fuel=a.fuel, timeout=a.timeout, jobs=a.j, only=a.only)
+    rep = verify_family(a.family, fuel=a.fuel, timeout=a.timeout, jobs=a.j, only=a.only, cross=a.cross)
     n = d = 0
     for meta, results in rep['units']:
         tag = '%s %s' % (meta['kind'], meta['key'])
